@@ -113,3 +113,35 @@ def x04(ctx):
     rnd = ctx.path("cases-b.ndjson")
     vlib.harness(["gen", "chat", ctx.seed, 3000 if q else 40000, rnd])
     vlib.exec_and_judge(ctx, "chat", rnd, "Trace_Chat", "B", sample_keys=keys)
+
+
+@ext("X05", "infer", "Trace_Infer", "inference loader: error slot, source / result scans around the threaded pipe")
+def x05(ctx):
+    q = ctx.quick()
+    ml = 3 if q else 4
+    ctx.rule = ("MC: Infer.tla (non-fused source scan, enumerate behind it, W pipe workers that each stop at their own first None, in-order "
+                "hand-over, result scan + fused flatten, one-place error slot written by both scans) for all item sequences up to 4 over "
+                "{1 window, 2 windows, source error, window error}: for W in {0,1} the first error ends the stream (FirstErrorEndsTheStream) "
+                "and exactly then an error is reported; for W = 2 TLC finds the counterexample (recorded finding) while the mechanism "
+                "prediction (stream goes on until W source errors were met; indices consecutive) and 'an error that was met is reported' "
+                "hold for W <= 3; A: all item sequences up to %d over 5 kinds x 0..3 threads x buffer x batch limit x sort on the real "
+                "InferenceLoader (guarded hook): delivered (item, window) pairs = Expected, error reported iff an item failed, batches "
+                "non-empty and within the count limit; DRIFT if the stream differs from the mechanism prediction; B: random. "
+                "non-trivial = a failing item behind at least one delivered window" % ml)
+    ctx.assumptions = ["windows() and the tokenizer supply the per-item window lists (C16 / C01)", "batch composition is the subject of C06"]
+    for w in (0, 1):
+        vlib.mc(ctx, "MC_Infer", "CONSTANTS W = %d MaxLen = 4 Items <- MCItems\nSPECIFICATION Spec\nINVARIANTS MechanismOutcome "
+                "SomeMetErrorIsReported ErrorIsReported FirstErrorEndsTheStream IndexIsPosition\nPROPERTY Terminates\nCHECK_DEADLOCK FALSE\n" % w,
+                name="MC_Infer-W%d" % w)
+    vlib.mc(ctx, "MC_Infer", "CONSTANTS W = 2 MaxLen = 4 Items <- MCItems\nSPECIFICATION Spec\nINVARIANTS FirstErrorEndsTheStream\n"
+            "CHECK_DEADLOCK FALSE\n", name="MC_Infer-W2-finding", expect_violation="FirstErrorEndsTheStream", coverage=False)
+    for w in ((2,) if q else (2, 3)):
+        vlib.mc(ctx, "MC_Infer", "CONSTANTS W = %d MaxLen = 4 Items <- MCItems\nSPECIFICATION Spec\nINVARIANTS MechanismOutcome "
+                "SomeMetErrorIsReported ErrorIsReported\nPROPERTY Terminates\nCHECK_DEADLOCK FALSE\n" % w, name="MC_Infer-W%d" % w, workers=8)
+    cases, n = vlib.tlc_generate(ctx, "Gen_Infer", "CONSTANTS MaxLen = %d\nINIT Init\nNEXT Next\nCHECK_DEADLOCK FALSE\n" % ml, "cases-a.ndjson")
+    keys = ["items", "threads", "sort", "batches", "err", "err_src"]
+    vlib.exec_and_judge(ctx, "infer", cases, "Trace_Infer", "A", sample_keys=keys, per_case_timeout_ms=20000)
+    ctx.exhaustive = True
+    rnd = ctx.path("cases-b.ndjson")
+    vlib.harness(["gen", "infer", ctx.seed, 1500 if q else 20000, rnd])
+    vlib.exec_and_judge(ctx, "infer", rnd, "Trace_Infer", "B", sample_keys=keys, per_case_timeout_ms=20000)
